@@ -203,6 +203,11 @@ structure St where
       actually resumed with it -/
   contAddressed : List Nat := []
   contResumed : List Nat := []
+  /-- ghost: the commands for which a continuation request was registered, in registration order -/
+  regLog : List Nat := []
+  /-- ghost: the command whose continuation request has been registered and whose literal header /
+      IDLE line (the very next thing its goroutine does) has not been flushed yet -/
+  unfl : Option Nat := none
   state : CState := .notAuth
   caps : Bool := true
   enabledUtf8 : Bool := false
@@ -311,6 +316,25 @@ def execSrv (s : St) (t : Nat) (rest : List Instr) : SrvAct → St
   | .close => ({ s with srvClosed := true }).setProg t rest
   | .rerr => ({ s with rerr := true }).setProg t rest
 
+/-- the flush of command `c`'s encoder by its owner `t` (`exec` checks the ownership) -/
+def flushBody (s : St) (t c : Nat) (w : WireKind) (m : FlushMode) (rest : List Instr) : St :=
+  let e := (s.cmd c).encErr
+  match m with
+  | .lit =>
+    -- Encoder.Literal: header + CRLF + Flush; nothing at all once the encoder has failed
+    if e ≠ 0 then s.setProg t rest
+    else if s.writable then ({ s with wire := s.wire ++ [(c, w)] }).setProg t rest
+    else (s.updCmd c fun r => { r with encErr := 2 }).setProg t rest
+  | .final =>
+    -- commandEncoder.end: flush() tolerates an *imap.Error, any other error closes the client
+    -- (an *imap.Error can only be the command's own tagged NO/BAD: it has left pendingCmds)
+    if e = 1 && !s.pending.contains c then ({ s with enc := none }).setProg t rest
+    else if e = 0 && s.writable then ({ s with wire := s.wire ++ [(c, w)], enc := none }).setProg t rest
+    else s.closeConn.setProg t (.closeSwap :: .encUnlock :: rest)
+  | .idle =>
+    if s.writable then ({ s with wire := s.wire ++ [(c, w)] }).setProg t rest
+    else s.closeConn.setProg t (.closeSwap :: rest)
+
 /-- thread `t` owns the encoder lock (for an IDLE in progress the owner is its supervisor) -/
 def St.holds (s : St) (t : Nat) : Bool := decide (s.enc = some t)
 
@@ -345,30 +369,20 @@ def exec (v : Variant) (s : St) (t : Nat) (i : Instr) (rest : List Instr) : St :
      else s.updCmd c fun r => { r with tag := r.ltag, chanInit := true }).setProg t rest
   | .flush c w m =>
     if !s.holds t then s else
-    let e := (s.cmd c).encErr
-    match m with
-    | .lit =>
-      -- Encoder.Literal: header + CRLF + Flush; nothing at all once the encoder has failed
-      if e ≠ 0 then s.setProg t rest
-      else if s.writable then ({ s with wire := s.wire ++ [(c, w)] }).setProg t rest
-      else (s.updCmd c fun r => { r with encErr := 2 }).setProg t rest
-    | .final =>
-      -- commandEncoder.end: flush() tolerates an *imap.Error, any other error closes the client
-      -- (an *imap.Error can only be the command's own tagged NO/BAD: it has left pendingCmds)
-      if e = 1 && !s.pending.contains c then ({ s with enc := none }).setProg t rest
-      else if e = 0 && s.writable then ({ s with wire := s.wire ++ [(c, w)], enc := none }).setProg t rest
-      else s.closeConn.setProg t (.closeSwap :: .encUnlock :: rest)
-    | .idle =>
-      if s.writable then ({ s with wire := s.wire ++ [(c, w)] }).setProg t rest
-      else s.closeConn.setProg t (.closeSwap :: rest)
+    -- a literal header / IDLE line is flushed by the goroutine that has just registered the
+    -- continuation request for it (sequential code: registerContReq, then the flush)
+    if v.idleUnderEnc && isHeadKind w && decide (s.unfl ≠ some c) then s else
+    flushBody (if isHeadKind w then { s with unfl := none } else s) t c w m rest
   | .regCont c =>
     if v.idleUnderEnc && !s.holds t then s else
     let k := s.nextCont
     if v.cancelIfCompleted && (s.cmd c).completed then
       -- the command is over already: cancelled at once, never queued
-      ((({ s with nextCont := k + 1 }).setCont k .cancelled).updCmd c fun r => { r with cont := k }).setProg t rest
+      ((({ s with nextCont := k + 1, regLog := s.regLog ++ [c], unfl := some c }).setCont k .cancelled).updCmd c
+        fun r => { r with cont := k }).setProg t rest
     else
-      ((({ s with nextCont := k + 1, contReqs := s.contReqs ++ [(k, c)] }).setCont k .waiting).updCmd c
+      ((({ s with nextCont := k + 1, contReqs := s.contReqs ++ [(k, c)], regLog := s.regLog ++ [c],
+                  unfl := some c }).setCont k .waiting).updCmd c
         fun r => { r with cont := k }).setProg t rest
   | .litCaps => if !s.holds t then s else s.setProg t rest
   | .contWait c idle =>
@@ -684,7 +698,8 @@ def enabled (v : Variant) (s : St) (t : Nat) : Bool :=
     match i with
     | .encLock => s.enc.isNone
     | .register c => s.holds t && !(s.cmd c).registered
-    | .postReg _ | .flush .. | .litCaps | .encUnlock | .idleDoneW _ => s.holds t
+    | .postReg _ | .litCaps | .encUnlock | .idleDoneW _ => s.holds t
+    | .flush c w _ => s.holds t && !(v.idleUnderEnc && isHeadKind w && decide (s.unfl ≠ some c))
     | .regCont _ => !v.idleUnderEnc || s.holds t
     | .contWait c idle =>
       s.holds t &&
